@@ -101,6 +101,9 @@ class MasterScheduler(BaseScheduler):
     async def _do_tick(self):
         """Continuously schedules ticks according to wakeups."""
         if not self.wakeups:
+            # nothing is pending, so a flag which is still set was raised by a wakeup
+            # that has already been served (one added just as the sleep below ended)
+            self.new_wakeup.clear()
             await self.new_wakeup.wait()
         components, when = self.get_first_wakeups()
         assert when is not None
